@@ -12,14 +12,14 @@
      empty message; vars and levels keep their previous values"
      (C07_empty_after_*_partial) and, for GetID / Get / searchID run over that state
      (EndToEnd.inst_getid etc.), as "not found for every query" (C07_*_answers_as_empty).
-     Scans on the emptied instance: oracle only.
+     Scans on the emptied instance: C07_*_scans_as_empty.
    * that the archived legacy files ARE sequences of framed sections is checked by
      the correspondence (the model reads every fixture completely), not proved. *)
 From Coq.Strings Require Import String.
 From Coq Require Import List NArith ZArith Bool.
 From Coq.Strings Require Import Byte.
 From Slim Require Import Varint VarintProofs Proto ProtoProofs Semver Frame FrameProofs Instance InstanceProofs Wire WireProofs.
-From Slim Require Import Base Keys Model Msg EndToEnd EndToEndProofs.
+From Slim Require Import Base Keys Model Msg EndToEnd EndToEndProofs EndToEndScan EndToEndScanProofs.
 Import ListNotations.
 Open Scope N_scope.
 
@@ -111,7 +111,7 @@ Print Assumptions C07_rejected_load_state_partial.
    (EndToEnd.inst_*: test st.inner.NodeTypeBM == nil first, only then read vars): after an
    interrupted or incompatible load they answer -1 / not found / (-1,-1,-1) for EVERY query,
    whatever stale vars and levels the instance still holds (also the nil vars left by
-   Reset).  Still PARTIAL for the scanners, which the oracle exercises on the real code. *)
+   Reset).  The scanners follow below. *)
 Theorem C07_cut_answers_as_empty :
   forall (Levels : Type) (init_levels : slim -> Levels) (reset_levels : Levels)
          (conv510 : slim -> slim) (conv3 : list byte -> list byte -> list byte -> slim)
@@ -142,6 +142,39 @@ Proof.
   exact (empty_after_incompatible_gen VarsT Levels ivars il rl c5 c3 st b Hl Hn).
 Qed.
 Print Assumptions C07_incompatible_answers_as_empty.
+
+(* ... and scans as an empty trie: every iterator call returns nil, ScanFrom / ScanFromTo
+   deliver nothing (getGEPath tests NodeTypeBM first and yields the empty path) *)
+Theorem C07_cut_scans_as_empty :
+  forall (Levels : Type) (init_levels : slim -> Levels) (reset_levels : Levels)
+         (conv510 : slim -> slim) (conv3 : list byte -> list byte -> list byte -> slim)
+         (st : inst VarsT Levels) m s cut fuel lfuel,
+  blen (ser_slim m) < two63 -> marshal_gen m = Some s -> (cut < length s)%nat ->
+  let st' := fst (step compat_gen cur_gen VarsT Levels ivars init_levels reset_levels conv510 conv3 st
+                       (OpUnmarshal (firstn cut s))) in
+  (forall start incl withv extra, inst_iter_all Levels st' fuel lfuel start incl withv extra = Ok ([], repeat None extra)) /\
+  (forall start incl withv fn, inst_scan_from Levels st' fuel lfuel start incl withv fn = Ok []) /\
+  (forall start incl e incle withv fn, inst_scan_from_to Levels st' fuel lfuel start incl e incle withv fn = Ok []).
+Proof.
+  intros Levels il rl c5 c3 st m s cut fuel lfuel Hb Hm Hc st'. apply (emptied_scans Levels st st').
+  exact (empty_after_cut_gen VarsT Levels ivars il rl c5 c3 st m s cut Hb Hm Hc).
+Qed.
+Print Assumptions C07_cut_scans_as_empty.
+
+Theorem C07_incompatible_scans_as_empty :
+  forall (Levels : Type) (init_levels : slim -> Levels) (reset_levels : Levels)
+         (conv510 : slim -> slim) (conv3 : list byte -> list byte -> list byte -> slim)
+         (st : inst VarsT Levels) b fuel lfuel,
+  (32 <= length b)%nat -> ~ listed (strip_nul (firstn 16 b)) ->
+  let st' := fst (step compat_gen cur_gen VarsT Levels ivars init_levels reset_levels conv510 conv3 st (OpUnmarshal b)) in
+  (forall start incl withv extra, inst_iter_all Levels st' fuel lfuel start incl withv extra = Ok ([], repeat None extra)) /\
+  (forall start incl withv fn, inst_scan_from Levels st' fuel lfuel start incl withv fn = Ok []) /\
+  (forall start incl e incle withv fn, inst_scan_from_to Levels st' fuel lfuel start incl e incle withv fn = Ok []).
+Proof.
+  intros Levels il rl c5 c3 st b fuel lfuel Hl Hn st'. apply (emptied_scans Levels st st').
+  exact (empty_after_incompatible_gen VarsT Levels ivars il rl c5 c3 st b Hl Hn).
+Qed.
+Print Assumptions C07_incompatible_scans_as_empty.
 
 (* ---- the constants the model was written for, and concrete version strings ----------------- *)
 Definition s (x : String.string) : list byte := String.list_byte_of_string x.
